@@ -60,8 +60,10 @@ func shrinkCandidates(s Sexp, keep map[string]bool) []Sexp {
 }
 
 // shrink reduces one failing input; class is the oracle class to preserve
-// (without the "impl-differs " prefix).
-func (r *Run) shrink(in Sexp, class string, budget int) (Sexp, int) {
+// (without the "impl-differs " prefix); differs = the finding is one where the
+// implementation's answer is not the model's, and the shrunk input must stay one
+// (otherwise a listed class could shrink to its known witness, on which they agree).
+func (r *Run) shrink(in Sexp, class string, differs bool, budget int) (Sexp, int) {
 	p := r.Prop
 	cur := in
 	used := 0
@@ -89,6 +91,9 @@ func (r *Run) shrink(in Sexp, class string, budget int) (Sexp, int) {
 			for i, c := range chunk {
 				mo, _ := splitVerdict(ans[2*i])
 				if strings.HasPrefix(mo, "bad") || len(c.String()) >= len(cur.String()) {
+					continue
+				}
+				if differs && mo == impls[i] {
 					continue
 				}
 				v := ans[2*i+1]
@@ -121,7 +126,7 @@ func (r *Run) ShrinkViolations() {
 			continue
 		}
 		class := strings.TrimPrefix(v.Class, "impl-differs ")
-		small, used := r.shrink(xs[0], class, 1500)
+		small, used := r.shrink(xs[0], class, strings.HasPrefix(v.Class, "impl-differs "), 1500)
 		if len(small.String()) < len(v.Input) {
 			v.Detail += " [shrunk from " + itoa(len(v.Input)) + " to " + itoa(len(small.String())) + " characters in " + itoa(used) + " evaluations; original: " + v.Input + "]"
 			v.Input = small.String()
